@@ -33,6 +33,7 @@ type c13Reader struct {
 	calls  int
 	failed bool
 	short  bool
+	given  int // bytes delivered so far
 }
 
 func (r *c13Reader) Read(p []byte) (int, error) {
@@ -48,6 +49,7 @@ func (r *c13Reader) Read(p []byte) (int, error) {
 	for i := 0; i < n; i++ {
 		p[i] = byte(r.calls + i)
 	}
+	r.given += n
 	return n, nil
 }
 
